@@ -79,21 +79,21 @@ ADDENDA = {
  "C02": "Also: every timeline wrapped in MergedTimeline::from (bit-equal), a non-dyadic end companion (terminal value at exactly the reported duration), and the WIDE/TALL families evaluated at exactly every keyframe position. A whole-second companion evaluates every cycle length 1..=64 s at exactly every cycle boundary and half cycle (the end of every forward pass shows 100%). An extreme-values companion puts neighbouring keyframes at opposite ends of the f32 range. Every built-in easing, as default and as keyframe easing, is evaluated at every keyframe position. Keyframes at 16 non-dyadic positions are hit at exactly representable times (forward and reversing). glam vector properties (a different value per lane) are checked at their keyframes.",
  "C03": "As built: 504 configurations (negative delays, cycle 1e-8 .. 1e3) + 96 with repeat counts 2^24-1 .. u32::MAX; three comparison regimes (exact / exact-phase / jitter window); every evaluation is also compared with the reported duration (terminal strictly before it or not terminal strictly after it is a violation); keyframe-less timelines report the same metadata. A merged pair of timelines with neighbouring f32 cycles must report no cycle duration; cycle lengths include 41, 47, 55 s (d * (1/d) < 1). Cycles of 3, 7 and 11 units of the smallest subnormal. Merged with a shorter Times(3) twin the greater repeat is reported. The merged twin starts 4 s later: the greater of the two totals is reported.",
  "C04": "As built: pool of 19 timeline shapes (merged, delayed, keyframe-less, infinite, ...), optional third animated state, de-duplicating BFS keyed on the complete mutable state, and a non-dyadic companion (advances on and 1 ulp around the reported total, all histories to depth 5/6). The pool has a shape with two keyframes tied at 100% (all E2 checks).",
- "C05": "As built: the same 19-shape pool incl. a negative-delay shape; an exact, model-free self-consistency clause (values bit-identical to the state's timeline probed at the animator's own clock), also run on the non-dyadic pool. A state-type twin replays every history on a state enum whose animated states are P(false) / P(true) and on the fieldless enum (identical observations). A huge-step companion takes single steps of 2^64 s .. f32::MAX inside short histories (saturating clock). The negative-delay shape also serves as the initial state's timeline. Every third configuration registers a decoy timeline for X before the real one (the most recent on() wins).",
- "C06": "As built: a very long frame (32768 s) in the alphabet; companions for non-representable steps (0.1 .. 0.7, within float rounding) and for nanosecond-scale steps (1 ns .. 1 us x 512..4096 against one advance of the sum). A huge-steps companion (2^36 s timeline, advance(2^35) against two advance(2^34), up to 2^40 s). The huge-steps companion reaches 2^63, 2^64, 2^65, 2^100 s and f32::MAX. The negative-delay shape may be the initial timeline (histories whose first evaluation is a zero-length advance excepted).",
- "C07": "As built: 19-shape pool incl. keyframe-less timelines and merged components with different repeat counts; non-dyadic companion against the reported duration. The state-type twin of C05 is run here too. An over-on-entry companion enters states whose timeline has a total duration <= 0. An exact-landing companion delivers exactly the total duration for None/Times 0..3 x reverse x delay x cycle.",
+ "C05": "As built: the same 19-shape pool incl. a negative-delay shape; an exact, model-free self-consistency clause (values bit-identical to the state's timeline probed at the animator's own clock), also run on the non-dyadic pool. A state-type twin replays every history on a state enum whose animated states are P(false) / P(true) and on the fieldless enum (identical observations). A huge-step companion takes single steps of 2^64 s .. f32::MAX inside short histories (saturating clock). The negative-delay shape also serves as the initial state's timeline. Every third configuration registers a decoy timeline for X before the real one (the most recent on() wins). One shape carries an easing on its 0% keyframe.",
+ "C06": "As built: a very long frame (32768 s) in the alphabet; companions for non-representable steps (0.1 .. 0.7, within float rounding) and for nanosecond-scale steps (1 ns .. 1 us x 512..4096 against one advance of the sum). A huge-steps companion (2^36 s timeline, advance(2^35) against two advance(2^34), up to 2^40 s). The huge-steps companion reaches 2^63, 2^64, 2^65, 2^100 s and f32::MAX. The negative-delay shape may be the initial timeline (histories whose first evaluation is a zero-length advance excepted). The normal form also removes detours from X/Y into the un-animated U1 and straight back.",
+ "C07": "As built: 19-shape pool incl. keyframe-less timelines and merged components with different repeat counts; non-dyadic companion against the reported duration. The state-type twin of C05 is run here too. An over-on-entry companion enters states whose timeline has a total duration <= 0. An exact-landing companion delivers exactly the total duration for None/Times 0..3 x reverse x delay x cycle. The over-on-entry companion reports a panic as a violation.",
  "C08": "As built: also a second struct with attribute noise (P2) and a remote proxy with markers on some fields only (R3Proxy), both driven through keyframe_from and setters. The animator family starts in each of the four states and tracks the state the caller configured / set.",
  "C09": "As built: plain and merged timeline objects through one generic DFS; the before-start time of undelayed objects is negative zero; one probe time lies exactly on a keyframe position.",
  "C10": "As built: 4 start values (far away, Default, equal to the 0% value, large odd numbers f32 still holds exactly), every other case substitutes twice.",
  "C11": "As built: thorough covers all 9! orders of all 9 positions; a grid with positions outside [0,1]; WIDE timelines (up to 65 537 keyframes) inserted in six structured orders. Timings with a huge delay/cycle ratio (delay 65536 / cycle 3).",
  "C12": "As built: 600 stub components (negative delays and totals, near-equal cycles, Times(u32::MAX)), nested merged timelines, wide lists of up to 1025 components. MergedTimeline::of is fed from a Vec, a filtered iterator and a from_fn iterator in rotation. clone_from runs under catch_unwind.",
  "C13": "As built: 1296 user-built CubicBezierEasing curves, custom easings composed from built-ins, and timelines in which two different custom easings follow one another.",
- "C15": "As built: literal alphabet includes 16_777_217x, 4294967295x and zero-length cycles (metadata only). Keyframe bodies include one whose fields are not in alphabetical order. Negative delay literals (after -0.5s, after -250ms). Long sentences of 31..65 keyframes.",
+ "C15": "As built: literal alphabet includes 16_777_217x, 4294967295x and zero-length cycles (metadata only). Keyframe bodies include one whose fields are not in alphabetical order. Negative delay literals (after -0.5s, after -250ms). Long sentences of 31..65 keyframes. Five ill-formed sentences are members of a bracketed list.",
  "C16": "As built: arm pool includes keyframe-less timelines and members of one bracketed list with identical timing that share a property. The pool also has a keyword and a percent keyframe at the same position (0% {..} from {..}; to {..} 100% {..}). One arm writes its easing, delay and duration after the keyframes.",
- "C17": "As built: attribute noise (doc comments, #[allow], #[cfg]) around markers, module-qualified remote paths, 48 wide structs (8..33 fields), and in every compiled shape a stepped animation of 80 keyframes and setter-override checks. Every compiled shape also evaluates a negative-delay timeline at negative times. A field first keyed at 50% with its own easing must have a lead-in eased by the default easing. keyframe_from is also fed a source holding zeros. A keyframe with an easing that does not define a field leaves that field alone. repeat(Times(0)) is reported as Times(0).",
+ "C17": "As built: attribute noise (doc comments, #[allow], #[cfg]) around markers, module-qualified remote paths, 48 wide structs (8..33 fields), and in every compiled shape a stepped animation of 80 keyframes and setter-override checks. Every compiled shape also evaluates a negative-delay timeline at negative times. A field first keyed at 50% with its own easing must have a lead-in eased by the default easing. keyframe_from is also fed a source holding zeros. A keyframe with an easing that does not define a field leaves that field alone. repeat(Times(0)) is reported as Times(0). Every other local Layer B struct has a hand-written non-zero Default. A reversing three-keyframe timeline rests on its original 0% keyframe after the end; every shape runs under catch_unwind.",
  "C18": "As built: 16 timeline configurations (12 plain, 4 MergedTimelines), a non-dyadic pass, and a presence pass in which the target component is detached / attached between frames. Four more non-dyadic timings whose delay + total rounds in f32. Every world also holds enabled animators without a timeline (with and without a target) before, inside and after each batch. A seek pass applies the documented reset() + timeline_position assignment. reset() must leave position 0 and state None; seeks made while disabled. An animator spawned without a timeline whose position is set before its first set_timeline keeps that position.",
- "C19": "As built: both system orders (probed per process), initial_key / reset_after, a disabled pass (animator disabled for a window of frames) and a mirror pass (the other animator on the entity changes state in every frame; C governed / Q foreign and Q governed / C foreign). A hot-swap pass replaces the governed animator's timeline (Animator::set_timeline) before frame 1, 2 or 3. Both relative orders of chain_animations and select_animation are explored in every run (worker processes, re-executed until each order has turned up); finding F10 (a foreign Ended moves the key while the governed animator rests in Ended) is listed in known_findings.json. The mirror pass demands that the governed animator of either component type has been started after frame 0.",
- "C20": "As built: 13 keyframe sets incl. extreme finite values, 257/513/300 keyframes and keyframes a subnormal distance apart; cycles up to f32::MAX; the empty merged timeline. Times include -0.0. A settings-omitted family leaves every subset of duration/delay/repeat/reverse to the builder's defaults. Delays include -1, -1e30, -1e32 and -f32::MAX (F11); clone_from between merged timelines of 0..3 components.",
+ "C19": "As built: both system orders (probed per process), initial_key / reset_after, a disabled pass (animator disabled for a window of frames) and a mirror pass (the other animator on the entity changes state in every frame; C governed / Q foreign and Q governed / C foreign). A hot-swap pass replaces the governed animator's timeline (Animator::set_timeline) before frame 1, 2 or 3. Both relative orders of chain_animations and select_animation are explored in every run (worker processes, re-executed until each order has turned up); finding F10 (a foreign Ended moves the key while the governed animator rests in Ended) is listed in known_findings.json. The mirror pass demands that the governed animator of either component type has been started after frame 0. A selected animation that ends without having been seen Playing leaves the component on its terminal values.",
+ "C20": "As built: 13 keyframe sets incl. extreme finite values, 257/513/300 keyframes and keyframes a subnormal distance apart; cycles up to f32::MAX; the empty merged timeline. Times include -0.0. A settings-omitted family leaves every subset of duration/delay/repeat/reverse to the builder's defaults. Delays include -1, -1e30, -1e32 and -f32::MAX (F11); clone_from between merged timelines of 0..3 components. Every built timeline is also formatted with {:?}.",
 }
 
 def main():
